@@ -391,6 +391,22 @@ def run(ctx, rep):
     rep.require(not bad13, "sibling", "symbol_version_table (C13 wiring rule in both parsers)", "src/elf_stream.rs",
                 "the symbol version table is assembled from the same sections, chosen the same way, in both parsers",
                 "the two parsers do not assemble the symbol version table by the same rule: %s" % "; ".join("%s: %s" % (v.key, v.msg[:200]) for v in bad13[:3]))
+    # ---- the API surface: "every stream query" - each public method of ElfStream is one whose agreement with its slice sibling the rules
+    # above decide (or a plain view of state set while opening); a further one is a query nothing here compares
+    KNOWN_STREAM = {"open_stream", "segments", "section_headers", "section_headers_with_strtab", "section_header_by_name", "section_data",
+                    "section_data_as_strtab", "symbol_table", "dynamic_symbol_table", "dynamic", "symbol_version_table", "section_data_as_rels",
+                    "section_data_as_relas", "section_data_as_notes", "segment_data_as_notes"}
+    n_api = 0
+    for fn_ in F.all_fns():
+        if fn_["qual"].startswith("elf_stream::ElfStream::") and fn_.get("reachable_pub") and fn_.get("kind") != "Closure" and fn_["qual"].count("::") == 2:
+            n_api += 1
+            nm_ = fn_["qual"].split("::")[-1]
+            okk = nm_ in KNOWN_STREAM and (nm_ in ("open_stream",) or F.fn("elf_bytes::ElfBytes::" + nm_) is not None)
+            sp_ = fn_["span"]
+            rep.require(okk, "api-surface", fn_["qual"], "%s:%d:%d" % (sp_["file"], sp_["line"], sp_["col"]), "a stream query with a slice sibling that is compared",
+                        "%s is a public stream query that is not one of the compared accessor pairs (or has no slice sibling of the same name): "
+                        "UNRECOGNISED - its agreement with the slice parser is not established" % fn_["qual"])
+    rep.floor("api-surface", "public ElfStream methods", n_api, 14)
     rep.floor("sibling", "accessor pairs compared", n, 11)
     rep.info["permitted_differences"] = diffs
     rep.info["covered_elsewhere"] = ["type guards of the typed views in both parsers: C20"]
